@@ -61,6 +61,7 @@ class RoleInterp(OrderInterp):
                  on_call: Callable[[FuncInfo, dict[str, Any]], None] | None = None) -> None:
         super().__init__(prog, module)
         self.on_call = on_call
+        self.visited: set[str] = set()   # qualified names of every program function interpreted
 
     # ---- receivers: methods resolve through the program, state reads fail closed
     def obj_method(self, base: Obj, attr: str, node: ast.AST) -> Any:
@@ -89,6 +90,7 @@ class RoleInterp(OrderInterp):
         return super().apply(fn, pos, kw, node)
 
     def _call_plain(self, fn: FuncInfo, pos: list[Any], kw: dict[str, Any]) -> Any:
+        self.visited.add(fn.qual)
         args = self.bind_args(fn.node, pos, kw)
         if self.on_call is not None:
             self.on_call(fn, args)
@@ -99,6 +101,7 @@ class RoleInterp(OrderInterp):
             self.module_stack.pop()
 
     def call_func(self, fn: FuncInfo, pos: list[Any], kw: dict[str, Any]) -> Any:
+        self.visited.add(fn.qual)
         if self.on_call is not None:
             p, sv = list(pos), None
             if fn.cls is not None and p:
@@ -124,7 +127,21 @@ class RoleInterp(OrderInterp):
             raise _Raise(f"AttributeError ('NoneType' object has no attribute '{attr}')", node)
         return super().attr_of(base, attr, node)
 
+    def unknown_name(self, ident: str, node: ast.AST) -> Any:
+        if ident in ("all", "any"):
+            return ("builtin", ident)
+        return super().unknown_name(ident, node)
+
+    def apply_other(self, fn: Any, pos: list[Any], kw: dict[str, Any], node: ast.AST) -> Any:
+        # an unmodelled external callable must not silently become a (truthy) record
+        if isinstance(fn, Obj) and fn.cls.startswith("ext:"):
+            raise AnalysisError(f"call of {fn.cls[4:]} (line {getattr(node, 'lineno', '?')}) is not modelled")
+        return super().apply_other(fn, pos, kw, node)
+
     def builtin(self, name: str, pos: list[Any], kw: dict[str, Any], node: ast.AST) -> Any:
+        if name in ("all", "any") and len(pos) == 1 and not kw:
+            vals = [self.truth(x, node) for x in self.iterate(pos[0], node)]
+            return all(vals) if name == "all" else any(vals)
         if name in ("max", "min") and len(pos) >= 2 and any(x is None for x in pos) \
                 and all(x is None or isinstance(x, Atom) for x in pos):
             raise _Raise(f"TypeError ({name}() of None and a quantity)", node)
